@@ -202,11 +202,21 @@ fn set_actor(t: &mut SupplyTrace, which: usize, exit: ExitSpec, ops: Vec<FsOp>, 
     if let Some(i) = t.root.layout.inspect.get_mut(which) {
         // an inspection that writes more than a pipe buffer holds to both streams (1 cell in 16)
         let big = !noutf8 && (ops.len() + which) % 2 == 1 && matches!(exit, ExitSpec::Code(0) | ExitSpec::Code(2));
+        let nops = ops.len();
+        let failing = !matches!(exit, ExitSpec::Code(0));
         i.actor.exit = exit;
         i.actor.ops = ops;
         // (text with multi-byte characters: some read of the pipe ends inside a character)
         i.actor.stdout = if noutf8 { vec![0xff, 0xfe, 0x00, 0xc3] } else if big { "\u{4e16}\u{754c}x\u{e9}".repeat(180_000 / 9 + which).into_bytes() } else { b"inspected\n".to_vec() };
-        i.actor.stderr = if big { vec![b'e'; 120_000] } else { vec![] };
+        // (multi-byte text on the error stream too, and — in cells with a failing status — a few hundred bytes of it:
+        // whoever quotes the output of a failed inspection cuts it somewhere)
+        i.actor.stderr = if big {
+            format!("{}{}", "e".repeat(which % 4), "\u{e9}\u{4e16}".repeat(120_000 / 5)).into_bytes()
+        } else if !noutf8 && failing {
+            format!("{}{}", "e".repeat((nops + which) % 4), "\u{e9}\u{20ac}".repeat(60 + 40 * (nops % 4))).into_bytes()
+        } else {
+            vec![]
+        };
     }
 }
 
